@@ -12,6 +12,7 @@ EXPLANATION = (
     "(R-C02-record-before-send) in outgoing_publish every path that returns Packet::Publish for QoS>0 stored a copy in outgoing_pub first, and the only path that keeps the publish without sending it stores it in `collision`; "
     "(R-C02-clean-on-error) in EventLoop::poll the Err edge of select() passes through EventLoop::clean, every path of which moves MqttState::clean()'s packets into `pending` (their position in the queue is R-C11-first); "
     "(R-C02-cancel-safe) in next_request (a select! arm) no await point is reachable after pending.pop_front(), so a cancelled poll cannot drop a carried-over request; "
+    "(R-C02-reason-class) the v5 ack handlers take their refusal path only for reason codes outside the MQTT 5 success class of the packet type; "
     "(R-C02-release-roles) outgoing_pub / outgoing_rel are emptied only by the PUBACK/PUBREC/PUBCOMP handlers and clean(). "
     "NOT decided: loss at specific crash points of the byte stream, framed-buffer contents at failure, broker-side session semantics.")
 ASSUMPTIONS = ["rustc MIR construction is correct"]
@@ -31,6 +32,7 @@ def run(ctx):
         ctx.guarded("R-C02-clean-on-error", clean_on_error, ctx, prog, ver)
         ctx.guarded("R-C02-release-roles", roles, ctx, prog, ver)
         ctx.guarded("R-C02-cancel-safe", cancel_safe, ctx, prog, ver)
+    ctx.guarded("R-C02-reason-class", reason_class, ctx, prog)
 
 
 def drain(ctx, prog, ver):
@@ -385,3 +387,39 @@ def cancel_safe(ctx, prog, ver):
                       site=nr.loc(nr.blocks[late[0]]["t"].get("sp")))
     else:
         ctx.ok(rule, nr.id, "no await point is reachable after pending.pop_front() (%d await points, all before)" % len(yields), site=nr.loc(nr.blocks[pops[0]]["t"].get("sp")))
+
+
+# MQTT 5 reason codes below 0x80 are successes: for PUBACK / PUBREC these are Success (0x00) and
+# NoMatchingSubscribers (0x10); PUBREL / PUBCOMP have Success only below 0x80.
+SUCCESS_CLASS = {"handle_incoming_puback": {"Success", "NoMatchingSubscribers"}, "handle_incoming_pubrec": {"Success", "NoMatchingSubscribers"},
+                 "handle_incoming_pubrel": {"Success"}, "handle_incoming_pubcomp": {"Success"}}
+
+
+def reason_class(ctx, prog):
+    """v5 ack handlers branch to their 'the broker refused' path (which drops the publish / ends the flow) only for
+    reason codes outside the success class: the set of reason variants the handler compares against before that
+    path equals the success codes of the packet type (a PUBREC with NoMatchingSubscribers is a normal PUBREC)."""
+    import json as _json
+    rule = "R-C02-reason-class"
+    for fn, want in sorted(SUCCESS_CLASS.items()):
+        b = state_fn(prog, "v5", fn)
+        got = set()
+        for bb, t in b.calls():
+            if b.is_cleanup(bb) or not re.search(r"PartialEq.*::(ne|eq)$", callee_path(t)):
+                continue
+            srcs = [x for a in t["args"] for x in flatten_src(provenance(b, a))]
+            if not any(getattr(x, "fields", None) and x.fields[-1] == "reason" for x in srcs):
+                continue
+            for x in srcs:
+                if x.kind == "const" and x.promoted is not None:
+                    pb = prog.promoted.get((b.id, x.promoted))
+                    if pb:
+                        got.update(re.findall(r'"var": "(\w+)"', _json.dumps(pb.raw["blocks"])))
+        if not got:
+            ctx.anchor_missing(rule, "%s (v5): no comparison of the packet's reason code found" % fn)
+        elif got == want:
+            ctx.ok(rule, b.id, "reason codes treated as success: %s" % sorted(got), site=b.fn_loc())
+        else:
+            ctx.violation(rule, b.id, "success class of reason codes",
+                          "%s treats %s as the non-failure reason codes, MQTT 5 defines %s for this packet: a successful acknowledgement is handled as a refusal (the flow is ended and its release is never sent / retransmitted) or a refusal as success"
+                          % (fn, sorted(got), sorted(want)), site=b.fn_loc())
